@@ -1,19 +1,102 @@
 //! C06 Squawk equals the octal identity code of the latest DF5/DF21 reply
 use super::super::*;
+use super::rows::*;
 use crate::verif::rt::*;
 use crate::verif::spec::*;
 
 // @harness props=C06 tier=quick cap=300
-// field level: every DF5 frame (all 2^56 contents)
+// field level: every DF5 frame (all 2^56 contents with DF=5)
 #[cfg_attr(kani, kani::proof)]
 #[cfg_attr(kani, kani::unwind(29))]
 #[cfg_attr(verif_replay, test)]
 fn c06_field_df5() {
-    let mut m = frame14();
-    set_bits(&mut m, 1, 5, 5);
+    let m = frame14();
+    pin_df(&m, 5);
     let want = id13_squawk(&m);
     let got = squawk(&m);
     vcover!(want == 7777, "7777 reachable");
     vcover!(want == 1200, "1200 reachable");
     vassert!(got == Some(want), "C06: squawk differs from the identity code A B C D");
+}
+
+// @harness props=C06 tier=quick cap=300
+// field level: every DF21 frame (all 2^112 contents with DF=21)
+#[cfg_attr(kani, kani::proof)]
+#[cfg_attr(kani, kani::unwind(29))]
+#[cfg_attr(verif_replay, test)]
+fn c06_field_df21() {
+    let m = frame28();
+    pin_df(&m, 21);
+    let want = id13_squawk(&m);
+    let got = squawk(&m);
+    vcover!(want == 7700, "7700 reachable");
+    vassert!(got == Some(want), "C06: squawk differs from the identity code A B C D");
+}
+
+// @harness props=C06,C11 tier=quick cap=600
+// row step: any DF5 frame (non-zero address) on an arbitrary row, -U and -R symbolic: the row's
+// squawk is the frame's code and nothing but squawk/bookkeeping changes
+#[cfg_attr(kani, kani::proof)]
+#[cfg_attr(kani, kani::unwind(33))]
+#[cfg_attr(kani, kani::stub(chrono::Utc::now, crate::verif::rt::stub_now))]
+#[cfg_attr(kani, kani::stub(crate::decoder::get_downlink_format, super::rows::stub_get_df))]
+#[cfg_attr(verif_replay, test)]
+fn c06_row_df5() {
+    let m = frame14();
+    pin_df(&m, 5);
+    let use_update = any_bool();
+    let relaxed = any_bool();
+    let mut p = any_row();
+    let Some((df, icao)) = accepted(&m) else { return };
+    p.icao = icao;
+    let before = clone_row(&p);
+    apply(&mut p, &m, df, use_update, relaxed);
+    let want = id13_squawk(&m);
+    vcover!(use_update && before.squawk.is_some() && before.squawk != Some(want), "overwrite via -U");
+    vcover!(!use_update && before.squawk.is_none(), "first squawk via default path");
+    vassert!(p.squawk == Some(want), "C06: row squawk is not the identity code of the DF5 reply just applied");
+    assert_unchanged_except(&before, &p, F_SQUAWK | F_BOOK);
+}
+
+// @harness props=C06 tier=quick cap=600
+// the DF5 frame that creates a row: the new row shows the frame's code
+#[cfg_attr(kani, kani::proof)]
+#[cfg_attr(kani, kani::unwind(33))]
+#[cfg_attr(kani, kani::stub(chrono::Utc::now, crate::verif::rt::stub_now))]
+#[cfg_attr(kani, kani::stub(crate::decoder::get_downlink_format, super::rows::stub_get_df))]
+#[cfg_attr(verif_replay, test)]
+fn c06_create_df5() {
+    let m = frame14();
+    pin_df(&m, 5);
+    let Some((df, icao)) = accepted(&m) else { return };
+    let p = create(&m, df, icao);
+    vcover!(p.squawk == Some(7500), "7500 reachable on creation");
+    vassert!(p.icao == icao, "C06: created row has another address");
+    vassert!(p.squawk == Some(id13_squawk(&m)), "C06: created row's squawk is not the identity code");
+}
+
+// @harness props=C06,C11 tier=quick cap=1500 mem=24
+// row step: any DF21 frame on an arbitrary row, capability, BDS 1,7 flags and -R symbolic (the whole
+// MB decoder runs; callsign construction stubbed by a marker): squawk is the frame's code
+#[cfg_attr(kani, kani::proof)]
+#[cfg_attr(kani, kani::unwind(90))]
+#[cfg_attr(kani, kani::stub(chrono::Utc::now, crate::verif::rt::stub_now))]
+#[cfg_attr(kani, kani::stub(crate::decoder::get_downlink_format, super::rows::stub_get_df))]
+#[cfg_attr(kani, kani::stub(crate::decoder::adsb::ais::ais, super::rows::stub_ais))]
+#[cfg_attr(verif_replay, test)]
+fn c06_row_df21() {
+    let m = frame28();
+    pin_df(&m, 21);
+    let relaxed = any_bool();
+    let use_update = any_bool();
+    let mut p = any_row();
+    let Some((df, icao)) = accepted(&m) else { return };
+    p.icao = icao;
+    let before = clone_row(&p);
+    apply(&mut p, &m, df, use_update, relaxed);
+    let want = id13_squawk(&m);
+    vcover!(relaxed, "relaxed");
+    vcover!(!relaxed && before.capability.0 > 3, "gate open by capability");
+    vcover!(!relaxed && before.capability.0 <= 3 && before.squawk.is_some() && before.squawk != Some(want), "gate closed, overwrite");
+    vassert!(p.squawk == Some(want), "C06: row squawk is not the identity code of the DF21 reply just applied");
 }
